@@ -111,9 +111,12 @@ func encodeProcessorOptions(opt *ProcessorOptions) *internal.ProcessorOptions {
 		pb.Sources = sources
 	}
 
-	// Fill value can only be a number. Set it if available.
-	if v, ok := opt.FillValue.(float64); ok {
+	// Fill value can only be a number (fill(5) is an int64, fill(5.0) a float64). Set it if available.
+	switch v := opt.FillValue.(type) {
+	case float64:
 		pb.FillValue = v
+	case int64:
+		pb.FillValue = float64(v)
 	}
 
 	// Set condition, if set.
